@@ -1,4 +1,5 @@
 import BbRe.Model.Fair
+import BbRe.Model.FairDyn
 import BbRe.Drivers.Util
 /-!
 Driver for `Model/Fair.lean`.  One request per line:
@@ -10,6 +11,10 @@ Driver for `Model/Fair.lean`.  One request per line:
          spec   = specPick, the documented admissible set (full scan, per-level windows)
   handoff I <n> (<len> <key>*)* T <tree>
       -> targets=<worker>,..          (empty list: the task is queued)
+  apply U <n> (enq <n> <key>* <id> <prio> <dur> <ts> | deq <n> <key>* <queueIndex> | inc <n> <key>* <now> |
+             dec <n> <key>* <now> | park <n> <key>* <worker> | unpark <n> <key>* <listIndex>)* T <tree>
+      -> p=<path>;prio=..;ops=<ids>;q=<keys>;pk=<keys>;pw=<workers>;e=..;s=..;c=..  per invocation
+         (Model/FairDyn.lean: the code's update functions with container/heap at their call sites)
   scorelt <e1> <p1> <e2> <p2> <tie>   -> <0|1>   (isPreferred with the exact score order)
   scorerow <e1> <p1> <p2> <tie> <n>   -> one digit per e2 = 0..n
 
@@ -99,6 +104,31 @@ def scoreRowReq : P String := do
   let e1 ← nat; let p1 ← int; let p2 ← int; let tie ← nat; let n ← nat
   pure (String.join ((List.range (n + 1)).map fun e2 => b01 (isPreferred e1 p1 e2 p2 (tie != 0))))
 
+/-! The dynamic model (`Model/FairDyn.lean`): apply updates, print the resulting tree. -/
+
+def showNats (l : List Nat) : String := ",".intercalate (l.map toString)
+
+partial def showTree (path : List Nat) (i : Inv) : List String :=
+  s!"p={showNats path};prio={i.prio};ops={showNats (i.ops.map (·.id))};q={showNats i.queued};pk={showNats i.parkedKids};pw={showNats i.parked};e={i.exec};s={i.started};c={i.completed}" ::
+    i.kids.flatMap fun c => showTree (path ++ [c.key]) c
+
+def update : P Update := do
+  let kind ← tok
+  match kind with
+  | "enq" => do let path ← counted nat; let o ← op; pure (.enqueue path o)
+  | "deq" => do let path ← counted nat; let idx ← nat; pure (.removeQueued path idx)
+  | "inc" => do let path ← counted nat; let now ← nat; pure (.increment path now fun _ => true)
+  | "dec" => do let path ← counted nat; let now ← nat; pure (.decrement path now fun _ => true)
+  | "park" => do let path ← counted nat; let w ← nat; pure (.park path w)
+  | "unpark" => do let path ← counted nat; let idx ← nat; pure (.unpark path idx)
+  | _ => failure
+
+/-- `apply U <n> <update>* T <tree>` -> the tree after the updates, one entry per invocation. -/
+def applyReq : P String := do
+  lit "U"; let us ← counted update
+  lit "T"; let t ← tree
+  pure (" ".intercalate (showTree [] (applyAll us t)))
+
 def run (p : P String) (ws : List String) : String :=
   match p ws with
   | some (out, []) => out
@@ -108,6 +138,7 @@ def step (s : Unit) (ws : List String) : Unit × String :=
   match ws with
   | "pick" :: rest => (s, run pickReq rest)
   | "handoff" :: rest => (s, run handoffReq rest)
+  | "apply" :: rest => (s, run applyReq rest)
   | "scorelt" :: rest => (s, run scoreReq rest)
   | "scorerow" :: rest => (s, run scoreRowReq rest)
   | _ => (s, "bad-op")
